@@ -312,10 +312,27 @@ func c15handler(c *Ctx) {
 		if collisions > 0 {
 			c.R.Add("records_with_a_key_given_twice", 1)
 		}
+		// two attributes whose keys differ in the case of their letters only: two attributes
+		if nrec >= 1 && r.P(12) {
+			a1, kv1 := c15attr(r, fmt.Sprintf("Kv%d~", kc), 3)
+			a2, kv2 := c15attr(r, fmt.Sprintf("kv%d~", kc), 3)
+			recAttrs = append(recAttrs, a1, a2)
+			recKVs = append(recKVs, kv1, kv2)
+			c.R.Add("records_with_two_keys_that_differ_in_letter_case", 1)
+		}
+		// (JSON) an attribute whose key is EMPTY and whose value is not: an attribute like any other (only the zero Attr is
+		// one that log/slog asks handlers to ignore)
+		emptyKeyUsed := false
+		if opt.JSON && r.P(10) {
+			emptyKeyUsed = true
+			recAttrs = append(recAttrs, stdslog.String("", "value-under-the-empty-key"))
+			recKVs = append(recKVs, gen.KV{Key: "", Val: gen.V{Kind: "str", Text: "value-under-the-empty-key", Go: "value-under-the-empty-key"}})
+			c.R.Add("records_with_a_value_under_the_empty_key", 1)
+		}
 		// a zero Attr among the record's attributes (log/slog asks handlers to ignore it): whatever the adapter does with
 		// it, the attributes after it belong to the record. JSON only: an empty key has no logfmt / colored spelling.
 		emptyAt := -1
-		if opt.JSON && nrec >= 1 && r.P(12) {
+		if opt.JSON && nrec >= 1 && !emptyKeyUsed && r.P(12) {
 			emptyAt = r.Intn(nrec)
 			recAttrs = append(recAttrs[:emptyAt:emptyAt], append([]stdslog.Attr{{}}, recAttrs[emptyAt:]...)...)
 			c.R.Add("records_with_a_zero_attr", 1)
